@@ -95,6 +95,7 @@ fn dispatch_case(cx: &mut Ctx, n: u64, case: &Value) {
         "distance" => ops_distance::distance_case(cx, n, case),
         "segseg" => ops_segseg::segseg_case(cx, n, case),
         "kernel" => ops_kernel::kernel_case(cx, n, case),
+        "kernel_fib" => ops_kernel::kernel_fib_case(cx, n, case),
         "hull" => ops_hull::hull_case(cx, n, case),
         "simplify" => ops_simplify::simplify_case(cx, n, case),
         "sweep" => ops_sweep::sweep_case(cx, n, case),
